@@ -28,7 +28,7 @@ def jobs(tier, seed):
     for g in range(4):
         for symp in ((0, 1) if g in (1, 2) else (0,)):
             J.append(dict(entry='h_jacobian', args=[g, symp], label=f'jacobian {GN[g]} symbolic-parameters={symp}', cls=f'jacobian-{GN[g]}', reach=['geometry-built'], eager=False,
-                          diff=(symp == 0 and g < 3), witness=(g != 3), cap_quick=240, cap_thorough=900, round_concrete=(g == 3)))
+                          diff=(symp == 0 and g < 3), witness=(g != 3), cap_quick=240, cap_thorough=300, round_concrete=(g == 3)))
     for p, nm in enumerate(('SonnendruckerGyro', 'ZoniGyro', 'ZoniShiftedGyro')):
         J.append(dict(entry='h_gyro', args=[p], label=f'gyro profile {nm}', cls='gyro', reach=['profile-built'], eager=False, witness=False, cap_quick=240))
     for pr, pn in enumerate(('CartesianR2', 'CartesianR6', 'PolarR6')):
@@ -38,7 +38,7 @@ def jobs(tier, seed):
     for (pr, g) in SOURCE_CLASSES:
         if True:
             J.append(dict(entry='h_source_term', args=[pr, g], label=f'source term {PN[pr]} Poisson {GN[g]}', cls='source-term', reach=['classes-built'], eager=False, diff=True, witness=False,
-                          cap_quick=240, cap_thorough=1800))
+                          cap_quick=240, cap_thorough=600))
     return J
 
 
